@@ -27,6 +27,7 @@ from uberjob._transformations import get_mutable_plan
 from uberjob._transformations.caching import plan_with_value_stores
 from uberjob._transformations.pruning import prune_plan
 from uberjob._util.retry import create_retry
+from uberjob._util.traceback import get_stack_frame
 from uberjob._util.validation import assert_is_callable, assert_is_instance
 from uberjob.graph import Call, Node
 from uberjob.progress import (
@@ -141,7 +142,9 @@ def run(
 
     plan = get_mutable_plan(plan, inplace=False)
 
-    output_node = plan.gather(output) if output is not None else None
+    output_node = (
+        plan._gather(get_stack_frame(), output) if output is not None else None
+    )
     redirected_output_node = output_node
 
     progress = _coerce_progress(progress)
